@@ -17,9 +17,11 @@ CLAIMED["C16"] = dict(
     text="Unbounded proof of Entry.__init__ (both call shapes), value, infos, is_infinite and Entry.update from the real AST: for every history, "
          "policy pair and candidate batch the value is the optimum of the old value and the candidates and the tag set is exactly (ALL) / a singleton "
          "subset of (ANY) / empty (NONE) the tags of optimal candidates; relational loop invariants with quantifiers, no bound on history length. "
-         "Entry.combine, Entry.__iter__ and the Table / proxy classes: see level_note.",
+         "EntryProxy.value / infos / is_infinite are proved too (a cell whose storage slot is None reads as infinitely bad with no tags, an existing one "
+         "reads as its Entry), relative to the ASSUMED contract of EntryProxy._get_real (the storage walk). "
+         "Entry.combine, Entry.__iter__ and the Table / TableProxy classes: see level_note.",
     note="Trusted: pyvc encoding; z3/cvc5; 'tagged' means truthy info; infinity.inf modelled as a three-constructor datatype (float inf identified with inf). "
-         "Table / TableProxy / EntryProxy are covered by the bounded stand-in only until their contracts are discharged (listed in the evidence).",
+         "Table / TableProxy / EntryProxy._get_real / EntryProxy.update (lazy cell creation in nested dict/list storage) are covered by the bounded stand-in only (listed in the evidence).",
 )
 
 CLAIMED["C17"] = dict(
